@@ -324,5 +324,108 @@ theorem memoRun_eq_map {α β κ : Type} [DecidableEq κ] {key : α → κ} {kee
         · subst he; exact ⟨q, rfl, rfl, hk⟩
         · exact hinv e he
 
+/-! ## dial attempts -/
+
+theorem attemptLoop_const_addr (t : Bytes) (i n : Nat) (os : List Bool) :
+    ∀ a ∈ attemptLoop (fun _ => t) i n os, a.addr = t := by
+  induction n generalizing i os with
+  | zero => intro a h; simp [attemptLoop] at h
+  | succ n ih =>
+    intro a h
+    cases os with
+    | nil =>
+      simp only [attemptLoop, List.mem_cons] at h
+      rcases h with h | h
+      · rw [h]
+      · exact ih _ _ a h
+    | cons o os =>
+      simp only [attemptLoop] at h
+      split at h
+      · simp only [List.mem_singleton] at h; rw [h]
+      · simp only [List.mem_cons] at h
+        rcases h with h | h
+        · rw [h]
+        · exact ih _ _ a h
+
+theorem attemptLoop_length_le (f : Nat → Bytes) (i n : Nat) (os : List Bool) :
+    (attemptLoop f i n os).length ≤ n := by
+  induction n generalizing i os with
+  | zero => simp [attemptLoop]
+  | succ n ih =>
+    cases os with
+    | nil => simp only [attemptLoop, List.length_cons]; have := ih (i + 1) []; omega
+    | cons o os =>
+      simp only [attemptLoop]
+      split
+      · simp
+      · simp only [List.length_cons]; have := ih (i + 1) os; omega
+
+theorem attemptLoop_length_pos (f : Nat → Bytes) (i n : Nat) (os : List Bool) (h : 1 ≤ n) :
+    1 ≤ (attemptLoop f i n os).length := by
+  cases n with
+  | zero => omega
+  | succ n =>
+    cases os with
+    | nil => simp [attemptLoop]
+    | cons o os => simp only [attemptLoop]; split <;> simp
+
+theorem attemptLoop_dropLast_failed (f : Nat → Bytes) (i n : Nat) (os : List Bool) :
+    ∀ a ∈ (attemptLoop f i n os).dropLast, a.ok = false := by
+  induction n generalizing i os with
+  | zero => intro a h; simp [attemptLoop] at h
+  | succ n ih =>
+    intro a h
+    cases os with
+    | nil =>
+      simp only [attemptLoop] at h
+      cases hr : attemptLoop f (i + 1) n [] with
+      | nil => rw [hr] at h; simp at h
+      | cons b bs =>
+        rw [hr, List.dropLast_cons₂] at h
+        simp only [List.mem_cons] at h
+        rcases h with h | h
+        · rw [h]
+        · exact ih (i + 1) [] a (by rw [hr]; exact h)
+    | cons o os =>
+      simp only [attemptLoop] at h
+      split at h
+      · simp at h
+      · cases hr : attemptLoop f (i + 1) n os with
+        | nil => rw [hr] at h; simp at h
+        | cons b bs =>
+          rw [hr, List.dropLast_cons₂] at h
+          simp only [List.mem_cons] at h
+          rcases h with h | h
+          · rw [h]
+          · exact ih (i + 1) os a (by rw [hr]; exact h)
+
+theorem attemptLoop_success (t : Bytes) (i n k : Nat) (rest : List Bool) (h : k < n) :
+    attemptLoop (fun _ => t) i n (List.replicate k false ++ true :: rest) =
+      List.replicate k { addr := t, ok := false } ++ [{ addr := t, ok := true }] := by
+  induction k generalizing i n with
+  | zero =>
+    cases n with
+    | zero => omega
+    | succ n => simp [attemptLoop]
+  | succ k ih =>
+    cases n with
+    | zero => omega
+    | succ n =>
+      simp only [List.replicate_succ, List.cons_append, attemptLoop]
+      simp only [Bool.false_eq_true, if_false]
+      rw [ih (i + 1) n (by omega)]
+
+theorem attemptLoop_all_fail (t : Bytes) (i n k : Nat) (rest : List Bool) (h : n ≤ k) :
+    attemptLoop (fun _ => t) i n (List.replicate k false ++ rest) = List.replicate n { addr := t, ok := false } := by
+  induction n generalizing i k with
+  | zero => simp [attemptLoop]
+  | succ n ih =>
+    cases k with
+    | zero => omega
+    | succ k =>
+      simp only [List.replicate_succ, List.cons_append, attemptLoop]
+      simp only [Bool.false_eq_true, if_false]
+      rw [ih (i + 1) k (by omega)]
+
 end C05
 end FwdVerif
